@@ -9,7 +9,9 @@ META = dict(
     level_text="The full property is machine-checked FALSE of the faithful model: a witness history with one leader per term, no double vote, no stale vote and only matching "
                "acknowledgements ends with a new leader that lacks an entry committed by an earlier leader (the leader commits an entry of an older term by counting replicas, and the vote rule "
                "compares index, term and commit separately); two further single-leader witness histories (Append acknowledged from a diverged log; a voter acknowledging an Append below its voted term) and two through the election defects of C27 show the same failure. All are reproduced on the real "
-               "code and recorded as known findings. The model is tied to /repo on every run by comparing complete cluster states after every event of seeded adversarial event lists; "
+               "code and recorded as known findings. The model carries the revision of the election code (C27): the check reads raft.rs and compares with the model of that revision; "
+               "the refutations through old-term commit and diverged-log acknowledgement are machine-checked for EVERY revision, the other three only before the C27 repairs - on a tree "
+               "with the repairs their classes are no longer accepted as known findings. The model is tied to /repo on every run by comparing complete cluster states after every event of seeded adversarial event lists; "
                "a new leader missing a leader-committed entry in a history outside the listed classes is a VIOLATION.",
     design_ref="DESIGN.md §5 C29, C27–C30 common",
     level_note="Only refutations and the model/implementation tie are machine-checked for this property; no conditional leader-completeness theorem is claimed (partial).",
